@@ -4,13 +4,22 @@ record which checks raise a VIOLATION.  Applies the patch to /repo and undoes it
 import json, os, subprocess, sys, re
 ST = os.environ.get("SEED_STAGING") or ("/verif/seeded/staging" if os.path.isdir("/verif/seeded/staging") and os.listdir("/verif/seeded/staging") else "/verif/seeded")
 OUT = os.environ.get("SEED_MATRIX_OUT", "/verif/work/seed_matrix.json")
-EXTRA = {"C02-r1": ["C01"], "C02-r2": ["C14"], "C14-r1": ["C01", "C15"], "C14-r2": ["C02"], "C15-r1": ["C10", "C14"], "C15-r2": ["C14", "C17"], "C05-r1": ["C01"], "C05-r2": ["C01"], "C03-r1": ["C07", "C13"], "C03-r2": ["C07"], "C01-r2": ["C02"],
+EXTRA = {"C04-r1": ["C05"], "C04-r2": ["C05"], "C06-r1": ["C05"], "C06-r2": ["C05", "C07"], "C07-r1": ["C13"], "C07-r2": ["C03"], "C08-r1": ["C09"], "C08-r2": ["C20"], "C09-r1": ["C07"], "C09-r2": ["C08"],
+         "C10-r1": ["C15", "C14"], "C10-r2": ["C06"], "C11-r1": ["C15", "C14"], "C11-r2": ["C18"], "C12-r1": ["C01"], "C12-r2": ["C18"], "C13-r1": ["C08"], "C13-r2": ["C07", "C03"], "C16-r1": ["C05"], "C16-r2": ["C02"],
+         "C17-r1": ["C09"], "C17-r2": ["C13"], "C18-r1": ["C11"], "C18-r2": ["C12"], "C19-r1": ["C07"], "C19-r2": ["C07", "C13"], "C20-r1": ["C08"], "C20-r2": ["C08"],
+         "C02-r1": ["C01"], "C02-r2": ["C14"], "C14-r1": ["C01", "C15"], "C14-r2": ["C02"], "C15-r1": ["C10", "C14"], "C15-r2": ["C14", "C17"], "C05-r1": ["C01"], "C05-r2": ["C01"], "C03-r1": ["C07", "C13"], "C03-r2": ["C07"], "C01-r2": ["C02"],
+         "C06-s1": ["C05", "C08"], "C06-s2": ["C10", "C08"], "C07-s1": ["C19", "C16"], "C07-s2": ["C13"], "C08-s1": ["C06"], "C08-s2": ["C20"], "C09-s1": ["C07"], "C09-s2": ["C10"],
+         "C10-s1": ["C06", "C15"], "C10-s2": ["C08"], "C13-s1": ["C08"], "C13-s2": ["C06"],
+         "C04-t1": ["C05", "C10"], "C04-t2": ["C05", "C06"], "C05-t1": ["C04", "C06"], "C05-t2": ["C06"], "C11-t1": ["C15", "C14"], "C11-t2": ["C18"], "C12-t1": ["C11", "C01"], "C12-t2": ["C14"],
+         "C16-t1": ["C05", "C04"], "C16-t2": ["C04"], "C17-t1": ["C09"], "C17-t2": ["C07"], "C18-t1": ["C11"], "C18-t2": ["C11", "C12"], "C20-t1": ["C08"], "C20-t2": ["C08"],
+         "C01-u1": ["C02", "C12"], "C01-u2": ["C02", "C12"], "C02-u1": ["C14", "C01"], "C02-u2": ["C14", "C01"], "C03-u1": ["C07", "C06"], "C03-u2": ["C13", "C06"],
+         "C14-u1": ["C02", "C15"], "C14-u2": ["C02", "C15"], "C15-u1": ["C14", "C11"], "C15-u2": ["C14", "C04"], "C19-u1": ["C07"], "C19-u2": ["C07"],
          "C09-1": ["C07"], "C17-1": ["C15", "C04"], "C02-2": ["C14"], "C14-1": ["C02"], "C06-1": ["C05"], "C05-2": ["C06"], "C19-1": ["C07"], "C19-2": ["C07"], "C10-1": ["C15"],
          "C08-1": ["C20"], "C08-2": ["C20"], "C20-1": ["C08"], "C20-2": ["C08"], "C11-1": ["C15"], "C15-1": ["C10"], "C04-2": ["C10"], "C06-2": ["C10"], "C03-2": ["C07"], "C13-1": ["C07"], "C12-1": ["C01"], "C12-2": ["C01"]}
 out = {}
 only = sys.argv[1:]
 for d in sorted(os.listdir(ST)):
-    if not re.match(r"C\d\d-r?\d", d) or (only and d not in only):
+    if not re.match(r"C\d\d-[rstu]?\d", d) or (only and d not in only):
         continue
     sd = os.path.join(ST, d)
     patch = os.path.join(sd, "patch.rebased.diff") if os.path.exists(os.path.join(sd, "patch.rebased.diff")) else os.path.join(sd, "patch.diff")
